@@ -10,6 +10,7 @@ package c02
 //	missing <proto|string|struct> <n>   n tells to an address that never existed
 //	reborn <proto|string|struct> <n>    a reference used while nobody lives at its address, then an actor is created
 //	                                    under that name and the same reference object is used for n tells: all handled
+//	broadcast <k> <n>                   a parent with k children broadcasts n messages: each child handles each once
 //	stopped <k> <stop|limit>            an actor fails on its first message while k more are queued; the supervisor
 //	                                    stops it (Stop directive, or Restart with limit 0): the k queued messages
 //	backlog <k> <g|n>                   an actor is busy while k messages are queued, then it is terminated
@@ -248,6 +249,58 @@ func (r *dlRunner) Step(t []string) string {
 			r.sys.Tell(old, m)
 		}
 		return r.report(ids)
+	case t[0] == "broadcast" && len(t) == 3:
+		// a parent with k children broadcasts n messages (ctx.Broadcast, and once more through sys.ExecLocalFunc):
+		// every child handles every message exactly once; ids are per (child, message)
+		k, ok1 := proto.Atoi(t[1])
+		n, ok2 := proto.Atoi(t[2])
+		if !ok1 || !ok2 || k < 1 || k > 16 || n < 1 || n > 32 {
+			return "bad-op"
+		}
+		base := r.nextID + 1
+		r.nextID += int64(k*n) + 1
+		launched := make(chan struct{}, k+1)
+		parent := r.sys.ActorOfF(func() vivid.Actor {
+			return vivid.FunctionalActor(func(ctx vivid.ActorContext) {
+				switch ctx.Message().(type) {
+				case *vivid.OnLaunch:
+					for c := 0; c < k; c++ {
+						c := c
+						ctx.ActorOfF(func() vivid.Actor {
+							return vivid.FunctionalActor(func(ctx vivid.ActorContext) {
+								switch m := ctx.Message().(type) {
+								case *vivid.OnLaunch:
+									launched <- struct{}{}
+								case *wrapperspb.Int64Value:
+									// the same message object reaches every child: the id is per child
+									r.handled(wrapperspb.Int64(base + int64(c*n) + m.Value))
+								}
+							})
+						})
+					}
+					launched <- struct{}{}
+				}
+			})
+		})
+		for i := 0; i < k+1; i++ {
+			select {
+			case <-launched:
+			case <-time.After(3 * time.Second):
+				return "err:launch"
+			}
+		}
+		var ids []int64
+		for c := 0; c < k; c++ {
+			for i := 0; i < n; i++ {
+				ids = append(ids, base+int64(c*n+i))
+			}
+		}
+		r.sys.ExecLocalFunc(parent, func(ctx vivid.ActorContext) {
+			for i := 0; i < n; i++ {
+				ctx.Broadcast(wrapperspb.Int64(int64(i)))
+			}
+		})
+		return r.report(ids)
 	case t[0] == "stopped" && len(t) == 3:
 		k, ok := proto.Atoi(t[1])
 		if !ok || k < 0 || k > 64 || (t[2] != "stop" && t[2] != "limit") {
@@ -330,6 +383,7 @@ func deadlettersGen(rng *proto.RNG, tier string, shard, nshards int, w *bufio.Wr
 			mode = "shared"
 		}
 		fmt.Fprintf(w, "sys %s\n", mode)
+		fmt.Fprintf(w, "broadcast %d %d\n", rng.Range(1, 6), rng.Range(1, 8))
 		for k := rng.Range(2, 5); k > 0; k-- {
 			switch rng.Intn(4) {
 			case 0:
